@@ -784,6 +784,10 @@ def session(root, data, env, trace=None, alloc_floor=None, pieces=None, rlimit_a
     if os.environ.get("VERIF_VARIANT") == "asan":
         rlimit_as_kib = None  # ASan reserves terabytes of address space
     if rlimit_as_kib:
+        # glibc reserves 64 MiB of address space per malloc arena and the runtime starts one worker thread per
+        # core: without a cap on arenas the limit under test is reached by bookkeeping alone (seen once in a soak
+        # as "failed to allocate an alternative stack")
+        e = dict(e, MALLOC_ARENA_MAX="2")
         argv = ["bash", "-c", "ulimit -c 0; ulimit -v %d; exec \"$0\" \"$@\"" % rlimit_as_kib] + argv
     t0 = time.time()
     timed_out = False
